@@ -149,9 +149,13 @@ def run(tier, seed):
     g = C.tlc("FileModel", "gen_FileModel.cfg", rd, workers=2)
     chk.add_tlc(g)
     fcases = C.parse_payload(g.lines, "CASE ")
-    s = C.tlc("UtilSession", "gen_Session_%d.cfg" % (1 if tier == "quick" else 2), rd, workers=4, heap="4g")
+    s = C.tlc("UtilSession", "gen_Session_%d.cfg" % (1 if tier == "quick" else 2), rd, workers=4, heap="4g",
+              prefixes=("CASE ", "ENDS "))
     chk.add_tlc(s)
     sessions = C.parse_payload(s.lines, "CASE ")
+    ends = sorted(C.parse_payload(s.lines, "ENDS "), key=lambda x: json.dumps(x, sort_keys=True))
+    if len(ends) < 1500:
+        raise C.InfraError("only %d sessions with endings" % len(ends))
     if len(fcases) < 1500 or len(sessions) < 300:
         raise C.InfraError("generators produced %d / %d cases" % (len(fcases), len(sessions)))
     if tier == "thorough":
@@ -190,6 +194,23 @@ def run(tier, seed):
         meta[cid] = ("session:" + " ; ".join(x["cmd"] + ("(" + re.sub(r"[0-9]", "#", x["arg"])[:12] + ")" if x["arg"] else "") for x in sq)
                      + ("@" + cpu if cpu != "msp430" else ""), script)
         jobs.append((exe, wd, cid, "t.hex", good["hex"], ["-" + cpu], script))
+    # one-command sessions and interactive asm blocks under every ending (quit, exit, end of input)
+    for i, e in enumerate(ends):
+        cid = "e%d" % i
+        lines = []
+        for x in e["cmds"]:
+            lines.append(("%s %s" % (x["cmd"], x["arg"])).strip())
+            if "body" in x:
+                lines += [re.sub(r"@L(\d+)@", lambda m: ("nop ; " + "x" * int(m.group(1)))[:int(m.group(1))], b) for b in x["body"]]
+                if x["closed"]:
+                    lines.append("")
+        script = "\n".join(lines) + "\n" + ({"quit": "quit\n", "exit": "exit\n", "eof": ""}[e["end"]])
+        cpu = OTHER[(i // 5) % len(OTHER)] if i % 5 == 4 else "msp430"
+        x = e["cmds"][0]
+        meta[cid] = ("session:%s(%s)%s end=%s%s" % (x["cmd"], re.sub(r"[0-9]", "#", x["arg"])[:12],
+                                                  ("[" + "|".join(b[:10] for b in x["body"]) + ("]" if x["closed"] else "")) if "body" in x else "",
+                                                  e["end"], "@" + cpu if cpu != "msp430" else ""), script[:3000])
+        jobs.append((exe, wd, cid, "t.hex", good["hex"], ["-" + cpu], script))
     events, details = [], {}
     with ThreadPoolExecutor(C.NCPU) as ex:
         for cid, ob, san in ex.map(run_util, jobs):
@@ -222,11 +243,12 @@ def run(tier, seed):
         distinct_nontrivial=len({m[1] for m in meta.values()}),
         rule="FileModel: 13 ELF header fields, 9 section-header fields x 6 sections, 5 symbol fields x 5 symbols, 9 UF2 block fields x 3, "
              "WDC fields, each at 7-15 boundary values; truncation at 24 lengths x 9 formats; 12 text-format mutations x 3 formats; 40 "
-             "byte flips x 4 formats; UtilSession: every command x argument class (quick: 1 command; thorough: + 20,000 pairs); all cases "
+             "byte flips x 4 formats; UtilSession: every command x argument class (quick: 1 command; thorough: + 20,000 pairs), each one-command session also ended by "
+             "exit and by end of input, 15 interactive asm bodies x 7 arguments x closed/unclosed x 3 endings; all cases "
              "non-trivial; distinct by case description",
-        traces_validated_against_impl=len(events) - len(canaries), file_cases=len(fcases), sessions=len(sessions),
+        traces_validated_against_impl=len(events) - len(canaries), file_cases=len(fcases), sessions=len(sessions), sessions_with_endings=len(ends),
         canaries=dict(injected=len(canaries), rejected=len(canaries)), exhaustive=False))
     chk.samples = [meta[c][1][:200] for c in rnd.sample(sorted(meta), 4)]
-    chk.assumptions = ["memory-safety oracle: AddressSanitizer + bounds build; 15 s timeout; scripts always end with quit "
-                       "(at end of input the readline build repeats the last command: noted in DESIGN.md)"]
+    chk.assumptions = ["memory-safety oracle: AddressSanitizer + bounds build; 15 s timeout; sessions end with quit, exit or end of input; "
+                       "run and call are not issued (they execute the loaded program for as long as it takes)"]
     return chk.finish()
